@@ -389,7 +389,11 @@ class ClassObject(Object, Callable):
     @cached_property
     def bases(self):
         # type: () -> list[CallableProto]
-        return list(filter(None, (self.ctx.evaluate(r) for r in self.scope._bases)))  # type: ignore[misc]
+        # only what can stand for a class: a base written as an instance, a
+        # module or a conditionally assigned name contributes nothing
+        values = (self.ctx.evaluate(r) for r in self.scope._bases)
+        return [v for v in values
+                if v and hasattr(type(v), '_attrs') and hasattr(type(v), 'call')]  # type: ignore[misc]
 
     @cached_property
     def _attrs(self):
